@@ -50,8 +50,8 @@ namespace OpenMEEG::MeshIOs {
     private:
 
         MeshIO* clone(const std::string&) const override {
-            std::cerr << "OpenMEEG not compiled with " << name() << " support. Specify " << cmakevar << " in cmake." << std::endl;
-            return const_cast<MeshIO*>(static_cast<const base*>(this)); 
+            //  Returning the prototype itself made Mesh::load/Mesh::save delete a static object.
+            throw OpenMEEG::GenericError(std::string("OpenMEEG not compiled with ")+name()+" support. Specify "+cmakevar+" in cmake.");
         }
 
         const char* ioname;
